@@ -1,0 +1,107 @@
+//go:build verif
+
+package bytecode
+
+// Verification hooks (build tag "verif"): read-only views of unexported
+// compiler, VM and symbol table state for the model-checking harness in
+// /verif. This file adds no behaviour and is not compiled without the tag.
+
+import (
+	"sort"
+	"strconv"
+	"strings"
+)
+
+// VerifRender renders a VM value in the form of the evaluator's repr built-in.
+func VerifRender(v value) string {
+	switch x := v.(type) {
+	case nil:
+		return "<unset>"
+	case numVal:
+		return x.String()
+	case boolVal:
+		return x.String()
+	case stringVal:
+		return strconv.Quote(string(x))
+	case noneVal:
+		return "<none>"
+	case arrayVal:
+		parts := make([]string, len(x.Elements))
+		for i, e := range x.Elements {
+			parts[i] = VerifRender(e)
+		}
+		return "[" + strings.Join(parts, " ") + "]"
+	case mapVal:
+		parts := make([]string, 0, len(x.order))
+		for _, k := range x.order {
+			parts = append(parts, string(k)+":"+VerifRender(x.m[k]))
+		}
+		if len(x.order) != len(x.m) {
+			parts = append(parts, "<order has "+strconv.Itoa(len(x.order))+" keys, table has "+strconv.Itoa(len(x.m))+">")
+		}
+		return "{" + strings.Join(parts, " ") + "}"
+	}
+	return "<unknown value>"
+}
+
+// VerifGlobals returns the final value of every global variable of the
+// compiled program, keyed by the compiler's symbol names.
+func VerifGlobals(c *Compiler, vm *VM) map[string]string {
+	root := c.symbolTable
+	for root.outer != nil {
+		root = root.outer
+	}
+	out := map[string]string{}
+	for name, sym := range root.store {
+		if sym.Index < len(vm.globals) {
+			out[name] = VerifRender(vm.globals[sym.Index])
+		} else {
+			out[name] = "<slot " + strconv.Itoa(sym.Index) + " out of range>"
+		}
+	}
+	return out
+}
+
+// VerifSP returns the VM's operand stack pointer.
+func VerifSP(vm *VM) int { return vm.sp }
+
+// VerifScopeDepth returns how many scopes the compiler has open.
+func VerifScopeDepth(c *Compiler) int {
+	d := 0
+	for t := c.symbolTable; t.outer != nil; t = t.outer {
+		d++
+	}
+	return d
+}
+
+// VerifSymbol is one resolvable symbol of a symbol table chain.
+type VerifSymbol struct {
+	Name  string
+	Scope SymbolScope
+	Index int
+	Depth int // 0 = the table itself, 1 = its outer table, ...
+}
+
+// VerifSymbols describes a symbol table: its next free index, its nested
+// high-water mark, whether it is the global table, and every symbol
+// resolvable from it (innermost definition of each name).
+func VerifSymbols(t *SymbolTable) (index, nestedMaxIndex int, global bool, symbols []VerifSymbol) {
+	seen := map[string]bool{}
+	depth := 0
+	for s := t; s != nil; s = s.outer {
+		names := make([]string, 0, len(s.store))
+		for n := range s.store {
+			names = append(names, n)
+		}
+		sort.Strings(names)
+		for _, n := range names {
+			if !seen[n] {
+				seen[n] = true
+				sym := s.store[n]
+				symbols = append(symbols, VerifSymbol{Name: n, Scope: sym.Scope, Index: sym.Index, Depth: depth})
+			}
+		}
+		depth++
+	}
+	return t.index, t.nestedMaxIndex, t.outer == nil, symbols
+}
